@@ -217,6 +217,10 @@ func init() {
 		e["res"], e["rev"], e["lat"] = res, rev, lat
 		return e
 	}
+	ops["sem.one"] = func(e Ev) Ev {
+		e["res"] = mkVer(e["a"]).Compare(mkVer(e["b"]))
+		return e
+	}
 	ops["sem.cmp"] = func(e Ev) Ev {
 		a, b := mkVer(e["a"]), mkVer(e["b"])
 		e["res"], e["rev"] = a.Compare(b), b.Compare(a)
